@@ -212,6 +212,19 @@ class JointRecurrencePlot(RecurrencePlot):
             raise ValueError("Both time series x and y need to have the same "
                              "length!")
 
+    @property
+    def JR(self):
+        """
+        The joint recurrence matrix; assignments are counted like those of
+        :attr:`RecurrencePlot.R`.
+        """
+        return self._JR
+
+    @JR.setter
+    def JR(self, recurrence):
+        self._JR = recurrence
+        self._mut_R = getattr(self, "_mut_R", 0) + 1
+
     def __str__(self):
         """
         Returns a string representation.
